@@ -3,13 +3,13 @@
 package corerad
 
 import (
-	"github.com/mdlayher/corerad/internal/system"
-	"log"
-	"io"
 	"context"
-	"net/netip"
 	"fmt"
+	"github.com/mdlayher/corerad/internal/system"
+	"io"
+	"log"
 	"math/rand"
+	"net/netip"
 	"testing"
 	"time"
 
